@@ -258,6 +258,10 @@ func main() {
 			if f == "" {
 				f = *focus
 			}
+			if f == "startfault" {
+				runStartFault(w, s, idx)
+				continue
+			}
 			runCase(w, s, idx, f)
 		}
 		return
@@ -270,6 +274,10 @@ func main() {
 		n *= 30
 	}
 	for i := 0; i < n; i++ {
+		if *focus == "startfault" {
+			runStartFault(w, *seed, i)
+			continue
+		}
 		runCase(w, *seed, i, *focus)
 	}
 }
